@@ -12,6 +12,8 @@ RULE = ("a first `load` of 1-4 circuit-breaking rules (all three strategies, 1-3
         "resource; bucket counts {0,1,2,5,10}, statistic intervals that do / do not divide, ProbeNum in {0,1,2,3}, MinRequestAmount "
         "0..10, thresholds on a 1/1000 grid incl. 0 and 1, retry timeouts 1..3000 ms, ~4% invalid rules) followed by 40-260 ops built from "
         "phases incl. reloads (`load` / `loadres` mid-history: rules kept, modified stat-reusably or not, dropped, added, split, duplicated, reordered), ramps (bad completions first, good ones lift the window to the minimum), window roll-overs after good-only buckets, full recoveries (trip, deadline, ProbeNum good probes), "
+        "error completions with varying dynamic error type (plain, wrapped, *base.BlockError of a really blocked entry, nil-typed) and reporting "
+        "path (TraceError, Exit(WithError), SetError), clears / invalid loads of rule-less resources sprinkled in (~4% of the observation points), "
         "~20% of the entries with WithBatchCount(n), n in {0,1,2,3,5,70000}, ~2% odd input (unknown / double exit, resource without rules, re-used entry id) and "
         "bursts of entries with bad/good completions (response time around MaxAllowedRtMs), waits landing on bucket "
         "boundaries / retry deadline -1,0,+1 / whole windows, probes (good, bad, several in flight), stragglers exited in a later "
@@ -102,6 +104,18 @@ class G:
         self.last_bad = t0
 
     def obs(self, p=0.6):
+        if self.rng.random() < 0.04:
+            # rule-manager calls on rule-less / unrelated resources: must be invisible to the observed resources
+            w = self.rng.randrange(4)
+            z = self.rng.choice(["z", "z", "y"])
+            if w == 0:
+                self.ops.append(f"clearres {z}")
+            elif w == 1:
+                self.ops.append(f"loadres {z}")
+            elif w == 2:
+                self.ops.append(f"loadres {z} {z},{self.rng.choice([0, 1, 2])},0,1,1000,1,0,{fb(0.5)},0")        # invalid: retry 0
+            else:
+                self.ops.append(f"loadres {z} {z},1,100,1,0,1,0,{fb(0.5)},0 {z},1,100,1,1000,1,0,{fb(-0.5)},0")    # both invalid
         if self.rng.random() < p:
             self.ops.append("log")
         if self.rng.random() < p * 0.5:
@@ -127,8 +141,14 @@ class G:
         return self.nid
 
     def exit(self, i, bad):
-        """bad completion: error flag and a slow response time (so every strategy sees it as bad)"""
-        self.ops.append(f"exit {i}" + (" err" if bad else ""))
+        """bad completion: error flag and a slow response time (so every strategy sees it as bad).  The error's dynamic
+        type and the way it is reported vary: every non-nil error is an error completion"""
+        tok = ""
+        if bad:
+            tok = " err"
+            if self.rng.random() < 0.5:
+                tok += ":" + self.rng.choice(["plain", "wrapped", "block", "block", "niltyped"]) + ":" + self.rng.choice(["trace", "trace", "exitopt", "seterr"])
+        self.ops.append(f"exit {i}" + tok)
         if i in self.open_ids:
             self.open_ids.remove(i)
         if bad:
